@@ -110,7 +110,7 @@ def run(tier, seed, res):
     res.assumptions = ASSUME
     groups = [(1, 2), (2, 1), (2, 3), (3, 2), (4, 1), (4, 2), (2, 4), (3, 1)] if quick else \
         [(P, T) for P in (1, 2, 3, 4) for T in (1, 2, 3, 4)] * 2
-    per = 45 if quick else 220
+    per = 45 if quick else 600
     batches = []
     for i, (P, T) in enumerate(groups):
         cases = mb.generate(case(P), per, seed * 1000 + i)
@@ -119,7 +119,7 @@ def run(tier, seed, res):
     mb.run_batches(PROP, b, batches, res, "cases", timeout=300 if quick else 1800, max_parallel=4,
                    tq_ms=5000 if quick else 20000)
     bg.join()
-    floor = 60 if quick else 1500
+    floor = 60 if quick else 4000
     if not res.violations and res.distinct_nontrivial < floor:
         res.inconclusive = "only %d non-trivial cases executed (floor %d)" % (res.distinct_nontrivial, floor)
 
